@@ -5267,10 +5267,14 @@ class DecRule:
         if self.model is not rvar.model.top:
             raise ValueError('Models mismatch.')
 
+        num_rand = self.model.sup_model.vars[-1].last
         if self.depend is None:
-            self.depend = np.zeros((self.size,
-                                    self.model.sup_model.vars[-1].last),
-                                   dtype=int)
+            self.depend = np.zeros((self.size, num_rand), dtype=int)
+        elif self.depend.shape[1] < num_rand:
+            # random variables declared since the last adapt()
+            extra = num_rand - self.depend.shape[1]
+            self.depend = np.concatenate(
+                (self.depend, np.zeros((self.size, extra), dtype=int)), axis=1)
 
         indices = rvar.get_ind()
         if ldr_indices is None:
